@@ -31,7 +31,7 @@ CFG = "Trace_Subscription_C11.cfg"
 def _payout_info(chunk, off):
     ev = chunk[off - 1]
     prev = chunk[off - 2] if off >= 2 else ev
-    cons = [c for c in prev["ct"] if c["at"] < ev["h"]]
+    cons = [c for c in prev["cs"]["c1"]["ct"] if c["at"] < ev["h"]]
     if not cons:
         return "no-payout", None
     c = cons[0]
@@ -103,7 +103,7 @@ def run(ctx):
         prev = None
         for r in rows:
             if prev is not None and r["ev"] != "reset":
-                cons = [c for c in prev["ct"] if c["at"] < r["h"]]
+                cons = [c for c in prev["cs"]["c1"]["ct"] if c["at"] < r["h"]]
                 if cons and r["ev"] in sl.ADV + ("payout",):
                     c = cons[0]
                     tc = [t for t in prev["tcu"] if t["sblk"] == c["sblk"]]
@@ -114,7 +114,7 @@ def run(ctx):
                         pay["capped"] += c["credit"] // total > 100
                     else:
                         pay["zero-cu"] += 1
-                        pay["sub-gone"] += not prev["subn"]["on"]
+                        pay["sub-gone"] += not prev["cs"]["c1"]["subn"]["on"]
             prev = r
         behs += new
         nrows += len(rows)
